@@ -544,7 +544,14 @@ fn show_t_atom_arrow(t: &Ty) -> String {
         | _ => show_t(t),
     }
 }
+thread_local! {
+    /// printing mode: every type binder of the program (not of the prelude) gets the one name `T`
+    static SAME_NAME: std::cell::Cell<bool> = const { std::cell::Cell::new(false) };
+}
 fn tv_name(x: TV) -> String {
+    if x < 1000 && SAME_NAME.with(|s| s.get()) {
+        return "T".into();
+    }
     if x >= 2000 {
         format!("P{}", x - 2000)
     } else if x >= 1000 {
@@ -637,6 +644,84 @@ pub fn program(c: &Cmp, inline: bool) -> String {
     }
     s.push_str(&format!("  {}\nend\n", pc(c, inline)));
     s
+}
+
+/// Is it legal to give every type binder of the program the same name? Yes iff every occurrence
+/// of a type variable refers to the innermost binder in scope at that point (term-level binders:
+/// type abstraction, unpacking; type-level binders: forall, exists).
+pub fn innermost_only(c: &Cmp) -> bool {
+    fn t(ty: &Ty, st: &mut Vec<TV>) -> bool {
+        match ty {
+            | Ty::Var(x) => *x >= 1000 || st.last() == Some(x),
+            | Ty::Thk(c) => ct(c, st),
+            | Ty::Pair(a, b) => t(a, st) && t(b, st),
+            | Ty::App(_, a) => t(a, st),
+            | Ty::Ex(x, b) => {
+                st.push(*x);
+                let r = t(b, st);
+                st.pop();
+                r
+            }
+            | _ => true,
+        }
+    }
+    fn ct(c: &CTy, st: &mut Vec<TV>) -> bool {
+        match c {
+            | CTy::Ret(a) => t(a, st),
+            | CTy::Fn(a, b) => t(a, st) && ct(b, st),
+            | CTy::All(x, b) => {
+                st.push(*x);
+                let r = ct(b, st);
+                st.pop();
+                r
+            }
+            | CTy::Alias(_) => true,
+        }
+    }
+    fn v(x: &Val, st: &mut Vec<TV>) -> bool {
+        match x {
+            | Val::Thunk(c) => go(c, st),
+            | Val::Pair(a, b) => v(a, st) && v(b, st),
+            | Val::Pack(w, p) => t(w, st) && v(p, st),
+            | _ => true,
+        }
+    }
+    fn go(c: &Cmp, st: &mut Vec<TV>) -> bool {
+        match c {
+            | Cmp::Ret(x) | Cmp::Force(x) => v(x, st),
+            | Cmp::Do(_, ty, a, b) => t(ty, st) && go(a, st) && go(b, st),
+            | Cmp::Fn(_, ty, b) => t(ty, st) && go(b, st),
+            | Cmp::TFn(x, b) => {
+                st.push(*x);
+                let r = go(b, st);
+                st.pop();
+                r
+            }
+            | Cmp::App(f, x) => go(f, st) && v(x, st),
+            | Cmp::TApp(f, ty) => go(f, st) && t(ty, st),
+            | Cmp::Let(_, ty, x, b) => t(ty, st) && v(x, st) && go(b, st),
+            | Cmp::Match(x, a, b) => v(x, st) && go(a, st) && go(b, st),
+            | Cmp::Unpack(x, _, p, b) => {
+                if !v(p, st) {
+                    return false;
+                }
+                st.push(*x);
+                let r = go(b, st);
+                st.pop();
+                r
+            }
+            | Cmp::LetPair(_, _, x, b) => v(x, st) && go(b, st),
+        }
+    }
+    go(c, &mut vec![])
+}
+
+/// print with every type binder named `T` (only for programs where `innermost_only` holds)
+pub fn program_same_name(c: &Cmp) -> String {
+    SAME_NAME.with(|s| s.set(true));
+    let out = program(c, false);
+    SAME_NAME.with(|s| s.set(false));
+    out
 }
 
 /* ------------------------------------ generator ------------------------------------ */
@@ -1187,6 +1272,7 @@ impl Check for PolyUniverse {
             match self.prop {
                 | "C03" => "a well-typed program (original or mutant) is accepted under both printings; an ill-typed mutant is rejected",
                 | "C01" => "whatever is accepted (original or mutant, either printing) runs without going wrong",
+                | "C07" => "a program in which every type-variable occurrence refers to the innermost binder, printed with every type binder named `T` (maximal shadowing of type variables), is accepted and returns the same result as under fresh names",
                 | _ => "an accepted well-typed program returns the reference evaluator's result under both printings",
             }
         )
@@ -1204,7 +1290,7 @@ impl Check for PolyUniverse {
             // the original
             let reference = eval(p, 20_000);
             let mut candidates: Vec<(String, Cmp, bool)> = vec![("original".into(), p.clone(), true)];
-            for (d, m) in mutants(p) {
+            for (d, m) in if prop == "C07" { vec![] } else { mutants(p) } {
                 match synth_c(&Scope::default(), &m) {
                     | Err(_) => candidates.push((d, m, false)),
                     // still well typed at a returning type: just another program
@@ -1219,16 +1305,29 @@ impl Check for PolyUniverse {
                     // a well-typed mutant is just another program of the universe (or slightly outside its menu)
                     r = r.count("mutants_still_well_typed", 1);
                 }
-                for inline in [false, true] {
-                    if inline && desc != "original" {
+                for pmode in 0..3 {
+                    if pmode > 0 && desc != "original" {
                         continue;
                     }
-                    let src = program(q, inline);
+                    if pmode == 2 && !innermost_only(q) {
+                        continue;
+                    }
+                    if prop == "C07" && pmode == 1 {
+                        continue;
+                    }
+                    let src = match pmode {
+                        | 0 => program(q, false),
+                        | 1 => program(q, true),
+                        | _ => program_same_name(q),
+                    };
+                    if pmode == 2 {
+                        r = r.count("printed_with_one_type_binder_name", 1);
+                    }
                     let (verdict, run) = Self::subject(scratch, &src);
-                    let mode = if inline { "aliases expanded" } else { "aliases by name" };
+                    let mode = ["aliases by name", "aliases expanded", "one name for every type binder"][pmode];
                     match (well_typed, verdict.accepted()) {
                         | (true, false) => {
-                            if prop == "C03" {
+                            if prop == "C03" || (prop == "C07" && pmode == 2) {
                                 r = r.violation(format!("well-typed polymorphic program rejected ({mode}): {}", crate::front::short_msg(&format!("{:?}", verdict))), format!("{desc}\n{:?}\n{}", verdict, src));
                             }
                         }
@@ -1258,7 +1357,7 @@ impl Check for PolyUniverse {
                                     }
                                 }
                                 | (RunEnd::Ret(got), Ok(w)) => {
-                                    if got != w && prop == "C02" {
+                                    if got != w && (prop == "C02" || (prop == "C07" && pmode == 2)) {
                                         r = r.violation(format!("polymorphic program returns a different result than the reference ({mode})"), format!("{desc}: got {got}, reference {w}\n{}", src));
                                     }
                                     r = r.count("agreements", (got == w) as u64);
